@@ -145,3 +145,74 @@ def cluster_doc(doc):
         ends[k] = len(lines)
     lines += ["</points-observations>", "</network>", "</gama-local>"]
     return "\n".join(lines) + "\n", ends
+
+
+# ---------------------------------------------------------------- attribute level (spec/GkfAttrs.tla)
+# the valid base document: one element per line; key = element class of GkfAttrs.tla (None for lines that are never corrupted)
+ATTR_BASE = [
+    (None, '<?xml version="1.0" ?>'),
+    (None, '<gama-local xmlns="http://www.gnu.org/software/gama/gama-local">'),
+    ("network", ("network", [("axes-xy", "ne"), ("angles", "left-handed"), ("epoch", "2020.5")], False)),
+    (None, "<description>attribute level</description>"),
+    ("parameters", ("parameters", [("sigma-apr", "10"), ("conf-pr", "0.95"), ("tol-abs", "1000"), ("sigma-act", "apriori"), ("algorithm", "gso"),
+                                   ("angular", "400"), ("latitude", "50"), ("cov-band", "-1")], True)),
+    ("pobs", ("points-observations", [("distance-stdev", "5 3 1"), ("direction-stdev", "10"), ("angle-stdev", "10"), ("zenith-angle-stdev", "10"),
+                                      ("azimuth-stdev", "10")], False)),
+    ("fixpoint", ("point", [("id", "A"), ("x", "0"), ("y", "0"), ("z", "0"), ("fix", "xyz")], True)),
+    (None, '<point id="B" x="100" y="0" z="1" fix="xyz" />'),
+    ("point", ("point", [("id", "C"), ("x", "100"), ("y", "100"), ("z", "2"), ("adj", "xyz")], True)),
+    (None, '<point id="D" x="0" y="100" z="3" adj="xyz" />'),
+    ("obs", ("obs", [("from", "A"), ("orientation", "0"), ("from_dh", "0")], False)),
+    ("direction", ("direction", [("to", "B"), ("val", "0.0010"), ("stdev", "10"), ("from_dh", "0"), ("to_dh", "0"), ("extern", "e1")], True)),
+    (None, '<direction to="C" val="50.0005" />'),
+    (None, '<direction to="D" val="99.9990" />'),
+    ("distance", ("distance", [("to", "C"), ("val", "141.4224"), ("stdev", "5"), ("from_dh", "0"), ("to_dh", "0"), ("extern", "e2")], True)),
+    ("angle", ("angle", [("bs", "B"), ("fs", "D"), ("val", "100.0012"), ("stdev", "10"), ("from_dh", "0"), ("bs_dh", "0"), ("fs_dh", "0"), ("extern", "e3")], True)),
+    ("sdistance", ("s-distance", [("to", "D"), ("val", "100.0460"), ("stdev", "5"), ("from_dh", "0"), ("to_dh", "0"), ("extern", "e4")], True)),
+    ("zangle", ("z-angle", [("to", "C"), ("val", "99.0990"), ("stdev", "10"), ("from_dh", "0"), ("to_dh", "0"), ("extern", "e5")], True)),
+    ("azimuth", ("azimuth", [("to", "B"), ("val", "0.0020"), ("stdev", "10"), ("from_dh", "0"), ("to_dh", "0"), ("extern", "e6")], True)),
+    (None, "</obs>"),
+    (None, "<height-differences>"),
+    ("dh", ("dh", [("from", "A"), ("to", "C"), ("val", "2.0010"), ("stdev", "2"), ("dist", "0.1"), ("extern", "e7")], True)),
+    (None, '<dh from="B" to="D" val="1.9990" stdev="2" />'),
+    (None, "</height-differences>"),
+    (None, "<coordinates>"),
+    ("cpoint", ("point", [("id", "C"), ("x", "100.0010"), ("y", "99.9990"), ("z", "2.0010")], True)),
+    ("covmat", ("cov-mat", [("dim", "3"), ("band", "0")], False)),
+    (None, "4 4 4 </cov-mat>"),
+    (None, "</coordinates>"),
+    (None, "<vectors>"),
+    ("vec", ("vec", [("from", "A"), ("to", "D"), ("dx", "0.0010"), ("dy", "100.0020"), ("dz", "3.0010"), ("extern", "e8")], True)),
+    (None, '<cov-mat dim="3" band="0"> 4 4 4 </cov-mat>'),
+    (None, "</vectors>"),
+    (None, "</points-observations>"),
+    (None, "</network>"),
+    (None, "</gama-local>"),
+]
+BAD_VALUE = {"badnum": "12x", "text": "abc", "empty": "", "badenum": "zz"}
+DOMAIN_VALUE = {"posnum": "-1", "prob": "1.5", "nat": "-1"}
+
+
+def attr_doc(muts):
+    """returns (text, line of every element class)"""
+    lines, at = [], {}
+    bykey = {}
+    for m in muts:
+        bykey.setdefault(m["e"], []).append(m)
+    for key, item in ATTR_BASE:
+        if key is None:
+            lines.append(item)
+            continue
+        tag, attrs, selfclose = item
+        attrs = list(attrs)
+        for m in bykey.get(key, []):
+            if m["w"] in ("missing", "missing_optional"):
+                attrs = [(k, v) for k, v in attrs if k != m["a"]]
+            elif m["w"] == "unknown":
+                attrs.append(("bogus", "1"))
+            else:
+                val = DOMAIN_VALUE[m["ty"]] if m["w"] == "domain" else BAD_VALUE[m["w"]]
+                attrs = [(k, val if k == m["a"] else v) for k, v in attrs]
+        lines.append("<%s %s%s>" % (tag, " ".join('%s="%s"' % kv for kv in attrs), " /" if selfclose else ""))
+        at[key] = len(lines)
+    return "\n".join(lines) + "\n", at
